@@ -60,6 +60,17 @@ class PurgeAppTask(BaseEvolutionTask):
             self.evolution_required = True
             self.sql = app_mutator.to_sql()
 
+            # DeleteApplication only removes the app's models from the
+            # signature (the mutation is also used in evolutions for apps
+            # that remain installed). A purged app is gone for good, so drop
+            # its now-empty entry too. Otherwise it would be reported as a
+            # deleted app on every subsequent run.
+            project_sig = evolver.project_sig
+            app_sig = project_sig.get_app_sig(self.app_label)
+
+            if app_sig is not None and app_sig.is_empty():
+                project_sig.remove_app_sig(app_sig.app_id)
+
         self.can_simulate = True
         self.new_evolutions = []
 
